@@ -363,7 +363,22 @@ def write_evidence(engine, tier, seed, agg, wall, extra_cov, n_viol, jobs):
 
 
 # -------------------------------------------------------------------- main --
+def _sweep_stale_scratch(max_age_s=6 * 3600):
+    """Remove scratch directories that killed runs left behind long ago."""
+    import shutil
+    root = scratch_root()
+    now = time.time()
+    for name in os.listdir(root):
+        p = os.path.join(root, name)
+        try:
+            if now - os.path.getmtime(p) > max_age_s:
+                shutil.rmtree(p, ignore_errors=True)
+        except OSError:
+            pass
+
+
 def batch(pid, tier, seed, budget_s, jobs, max_runs, chunk_size, per_run_wall):
+    _sweep_stale_scratch()
     engine = _load_engine(pid)          # import before forking
     rng = random.Random(seed)
     agg = _agg_new()
